@@ -54,6 +54,9 @@ static const EllSpec ELLS[] = {
   {WA, -WF, false, false}, {WA, 0.01, false, false}, {WA, 0.02, false, false}, {WA, -0.02, false, false}, {WA, 0.05, false, false},
   {WA, -0.05, false, false}, {WA, 0.1, false, false}, {WA, -0.1, false, false}, {WA, -0.2, false, false}, {1e9, -1 / 150.0, false, false},
   {WA, 0.5, true, false},
+  // second thorough ring: the AuxLatitude 'full accuracy' limit |f| = 1/150 at WGS84 size, and extreme exact-only shapes
+  {WA, 1 / 150.0, false, false}, {WA, -1 / 150.0, false, false}, {WA, 0.3, true, false}, {WA, -0.3, true, false},
+  {WA, 0.75, true, false}, {WA, -1.0, true, false}, {1e-3, 0.05, true, false},
 };
 static const int NELL = sizeof(ELLS) / sizeof(ELLS[0]);
 
@@ -77,7 +80,7 @@ struct Env {
   bool smallf() const { return std::fabs(es.f) <= 0.01; }
   std::string wname(const char* pred, int mode) const {
     // worst-case statistics are kept per regime: exact / series with |f| <= 0.01 (round-off claim) / series beyond
-    return std::string(pred) + (mode ? ".exact" : (smallf() ? ".series" : ".series_bigf")) + (deq ? ".in_known_defect_class" : "");
+    return std::string(pred) + (mode ? ".exact" : (smallf() ? ".series" : ".series_bigf")) ;
   }
 };
 
@@ -99,26 +102,39 @@ int main(int argc, char** argv) {
   const bool T = ctx.thorough();
   const Q DELTA = Q(EPS) * M_PI_2q;       // 2^-52 * 90 deg in radians
 
+  const double ulp30 = std::nextafter(30.0, 31.0) - 30.0;
+  // quick alphabets (the thorough ones below contain them)
   std::vector<double> LATS = {-90, -89.9999, -45, 0, 1e-9, 30, 30 + 1e-9, 30 + 1e-6, 89.9999, 90};
-  if (T) for (double x : {-1e-9, -30.0, 60.0, 89.0}) LATS.push_back(x);
+  std::vector<double> LATS_D = LATS;           // start latitudes of the direct problem
+  if (T) {
+    for (double x : {-1e-9, -30.0, 60.0, 89.0, -89.9, 89.9, -60.0, 45.0, 1e-3, 5.0}) LATS.push_back(x);
+    // divided-difference regime: pairs of nearly equal latitudes at separations 1 ulp (4e-15) ... 1e-3 deg
+    LATS.push_back(30 + ulp30); LATS.push_back(30 + 1e-12); LATS.push_back(30 + 1e-3);
+    for (double b : {-45.0, 60.0, 89.9}) for (double d : {4e-14, 1e-12, 1e-9, 1e-6, 1e-3}) LATS.push_back(b + d);
+    for (double d : {5e-324, 1e-15, 1e-12, 1e-6}) LATS.push_back(d);
+    for (double x : {-1e-9, -30.0, 60.0, 89.0, 89.9, -60.0, 1e-3, 5.0, 30 + ulp30, 60 + 1e-12}) LATS_D.push_back(x);
+  }
   std::vector<double> LON12 = {0, 1e-9, 1, 90, 179.999, 180, -180, 181};
   if (T) for (double x : {-1e-9, -90.0, 359.0, -179.999}) LON12.push_back(x);
   std::vector<double> LON1 = {0, 100};
   if (T) LON1.push_back(-179.5);
   std::vector<double> AZIS = {0, 1e-10, 45, 90 - 1e-10, 90, 90 + 1e-10, 180, 270};
-  if (T) for (double x : {-135.0, 89.0, 179.9999999999, 450.0}) AZIS.push_back(x);
+  if (T) for (double x : {-135.0, 89.0, 179.9999999999, 450.0,
+                          // nearly meridional and nearly east-west, both sides, several closenesses
+                          -1e-10, 1e-5, 180 + 1e-10, 90 - 1e-13, 90 + 1e-13, 90 - 1e-6, 90 + 1e-6, 89.999, 91.0, 270 - 1e-10, -90 + 1e-10, 1.0}) AZIS.push_back(x);
   std::vector<double> S12S = {0, 1, -1, 1e6, -1e6, 1e7, -1e7, 3e7, -3e7};
   if (T) for (double x : {1e-3, 5e6, -5e6, 2.5e7}) S12S.push_back(x);
   std::vector<double> DLON1 = {0, 150.75};
   if (T) DLON1.push_back(-190);
 
-  ctx.bound("ellipsoids", T ? "a=6378137 x f in {0,+-1/298.257223563,+-0.01,+-0.02,+-0.05,+-0.1,+-0.2}, (a=1,f=1/150), (a=1e9,f=-1/150); f=+-0.5 exact mode only (17)"
+  ctx.bound("ellipsoids", T ? "a=6378137 x f in {0,+-1/298.257223563,+-1/150,+-0.01,+-0.02,+-0.05,+-0.1,+-0.2}, (a=1,f=1/150), (a=1e9,f=-1/150); exact mode only: f=+-0.3, +-0.5, 0.75, -1, (a=1e-3,f=0.05) (24)"
                             : "WGS84, sphere, f=-0.01, f=0.2, (a=1,f=1/150); f=-0.5 exact mode only (6)");
-  ctx.bound("modes", "Rhumb(a,f,exact=false) and Rhumb(a,f,exact=true) on every ellipsoid (series skipped for |f|=0.5)");
-  ctx.bound("inverse.lat1 x lat2", fmti((long long)LATS.size()) + " x " + fmti((long long)LATS.size()) + " latitudes incl. both poles, +-89.9999, 0, +-1e-9, 30, 30+1e-9, 30+1e-6");
+  ctx.bound("modes", "Rhumb(a,f,exact=false) and Rhumb(a,f,exact=true) on every ellipsoid (series skipped on the exact-only ellipsoids)");
+  ctx.bound("inverse.lat1 x lat2", fmti((long long)LATS.size()) + " x " + fmti((long long)LATS.size()) + " latitudes incl. both poles, +-89.9999, 0, +-1e-9, 30, 30+1e-9, 30+1e-6" + (T ? "; thorough: +-89.9, +-60, +-45, +-30, 5, 1e-3, 5e-324, 1e-15, 1e-12, 1e-6 and nearly equal pairs b+d, b in {30,-45,60,89.9}, d in {1 ulp..4e-14, 1e-12, 1e-9, 1e-6, 1e-3} deg" : ""));
   ctx.bound("inverse.lon", fmti((long long)LON1.size()) + " lon1 x " + fmti((long long)LON12.size()) + " lon2-lon1 incl. 0, 1e-9, 179.999, +180, -180 (ties), 181 (long way round)");
-  ctx.bound("direct.azi12", fmti((long long)AZIS.size()) + " azimuths incl. 0, 1e-10, 90-1e-10, 90, 90+1e-10, 180, 270");
-  ctx.bound("direct.s12", fmti((long long)S12S.size()) + " fixed distances 0..+-3e7 m (to, through and several times round the pole) + 2 distances ending 2^-30 (relative) before/after the pole on every oblique/meridional course");
+  ctx.bound("direct.lat1", fmti((long long)LATS_D.size()) + " start latitudes");
+  ctx.bound("direct.azi12", fmti((long long)AZIS.size()) + " azimuths incl. 0, 1e-10, 90-1e-10, 90, 90+1e-10, 180, 270" + (T ? "; thorough: +-1e-10, 1e-5, 1, 180+-1e-10, 90+-1e-13, 90+-1e-6, 89, 89.999, 91, 270-1e-10, -90+1e-10, -135, 450" : ""));
+  ctx.bound("direct.s12", fmti((long long)S12S.size()) + " fixed distances 0..+-3e7 m (to, through and several times round the pole) + 2 distances ending 2^-30 (relative) before/after the pole on every oblique/meridional course" + (T ? " + the distance to the pole rounded to double and one ulp either side" : ""));
   ctx.bound("direct.forms", fmti((long long)DLON1.size()) + " lon1 x LONG_UNROLL {0,1} x {Rhumb::GenDirect, Rhumb::Line + RhumbLine::GenPosition}");
 
   std::vector<std::unique_ptr<Env>> envs;
@@ -245,11 +261,11 @@ int main(int argc, char** argv) {
 
   // ================================================================= direct
   ctx.sub("direct");
-  for (int e = 0; e < NELL; ++e) for (size_t i1 = 0; i1 < LATS.size(); ++i1) for (size_t ia = 0; ia < AZIS.size(); ++ia) {
+  for (int e = 0; e < NELL; ++e) for (size_t i1 = 0; i1 < LATS_D.size(); ++i1) for (size_t ia = 0; ia < AZIS.size(); ++ia) {
     if (!envs[e]) continue;
     if (!ctx.take()) continue;
     Env& V = *envs[e]; const rhq::Ell& E = V.E;
-    double lat1 = LATS[i1], azi = AZIS[ia];
+    double lat1 = LATS_D[i1], azi = AZIS[ia];
     rhq::Lat P1(lat1), P1p = P1.pole ? P1 : rhq::toward_equator(P1, DELTA);
     Q sa, ca; rhq::sincosd(azi, sa, ca);
     Q R1 = E.R(P1.s, P1.c);
@@ -258,6 +274,9 @@ int main(int argc, char** argv) {
       // distance along this course to the north pole (negative if the course heads south), shortened / lengthened by 2^-30
       Q sN = (E.quarter() - E.merid(0, P1.phi)) / ca;
       ss.push_back(qd(sN * (1 - ldexpq(1, -30)))); ss.push_back(qd(sN * (1 + ldexpq(1, -30))));
+      if (T) {       // ending at the pole as exactly as a double allows, and one ulp either side
+        double s0 = qd(sN); ss.push_back(s0); ss.push_back(std::nextafter(s0, INFINITY)); ss.push_back(std::nextafter(s0, -INFINITY));
+      }
     }
     for (double s12 : ss) {
       rhq::Dir d = rhq::direct_sc(E, P1, sa, ca, Q(s12)), dp = d;
